@@ -281,6 +281,10 @@ impl ParseSess {
     }
 
     pub(super) fn has_errors(&self) -> bool {
+        // The parser stashes some of its errors (e.g. a `static` item without a type) instead of
+        // emitting them. They count as errors, but the emitter, which tells the errors of
+        // ignored files from the rest, only sees them once they are emitted.
+        self.raw_psess.dcx().emit_stashed_diagnostics();
         self.raw_psess.dcx().has_errors().is_some()
     }
 
